@@ -218,6 +218,77 @@ pub enum Expression {
     Phi { meta: Meta, args: Vec<VariableName> },
 }
 
+impl Expression {
+    /// Returns a copy of the expression without the variable uses cached on its nodes.
+    #[must_use]
+    pub fn without_variable_knowledge(&self) -> Expression {
+        use Expression::*;
+        let strip = |expr: &Expression| Box::new(expr.without_variable_knowledge());
+        let strip_access = |access: &[AccessType]| {
+            access.iter().map(AccessType::without_variable_knowledge).collect::<Vec<_>>()
+        };
+        match self {
+            InfixOp { meta, lhe, infix_op, rhe } => InfixOp {
+                meta: meta.without_variable_knowledge(),
+                lhe: strip(lhe),
+                infix_op: *infix_op,
+                rhe: strip(rhe),
+            },
+            PrefixOp { meta, prefix_op, rhe } => PrefixOp {
+                meta: meta.without_variable_knowledge(),
+                prefix_op: *prefix_op,
+                rhe: strip(rhe),
+            },
+            SwitchOp { meta, cond, if_true, if_false } => SwitchOp {
+                meta: meta.without_variable_knowledge(),
+                cond: strip(cond),
+                if_true: strip(if_true),
+                if_false: strip(if_false),
+            },
+            Variable { meta, name } => {
+                Variable { meta: meta.without_variable_knowledge(), name: name.clone() }
+            }
+            Number(meta, value) => Number(meta.without_variable_knowledge(), value.clone()),
+            Call { meta, name, args } => Call {
+                meta: meta.without_variable_knowledge(),
+                name: name.clone(),
+                args: args.iter().map(Expression::without_variable_knowledge).collect(),
+            },
+            InlineArray { meta, values } => InlineArray {
+                meta: meta.without_variable_knowledge(),
+                values: values.iter().map(Expression::without_variable_knowledge).collect(),
+            },
+            Access { meta, var, access } => Access {
+                meta: meta.without_variable_knowledge(),
+                var: var.clone(),
+                access: strip_access(access),
+            },
+            Update { meta, var, access, rhe } => Update {
+                meta: meta.without_variable_knowledge(),
+                var: var.clone(),
+                access: strip_access(access),
+                rhe: strip(rhe),
+            },
+            Phi { meta, args } => {
+                Phi { meta: meta.without_variable_knowledge(), args: args.clone() }
+            }
+        }
+    }
+}
+
+impl AccessType {
+    /// Returns a copy of the access without the variable uses cached on its nodes.
+    #[must_use]
+    pub fn without_variable_knowledge(&self) -> AccessType {
+        match self {
+            AccessType::ArrayAccess(index) => {
+                AccessType::ArrayAccess(Box::new(index.without_variable_knowledge()))
+            }
+            AccessType::ComponentAccess(name) => AccessType::ComponentAccess(name.clone()),
+        }
+    }
+}
+
 pub type TagList = Vec<String>;
 
 #[derive(Clone, PartialEq, Eq, Hash)]
